@@ -12,14 +12,20 @@ def parseOp (s : String) : Outpoint :=
   | [a, b] => ⟨nat! a, nat! b⟩
   | _ => ⟨0, 0⟩
 
-def parseTx (s : String) : Option Tx :=
+/-- `id:nout:in,in:scr,scr` -> the transaction and the script id of each of its outputs -/
+def parseTx (s : String) : Option (Tx × List Nat) :=
   match s.splitOn ":" with
+  | [id, nout, ins, scr] =>
+    some (⟨nat! id, ((ins.splitOn ",").filter (· ≠ "")).map parseOp, nat! nout⟩,
+          ((scr.splitOn ",").filter (· ≠ "")).map nat!)
   | [id, nout, ins] =>
-    some ⟨nat! id, ((ins.splitOn ",").filter (· ≠ "")).map parseOp, nat! nout⟩
+    some (⟨nat! id, ((ins.splitOn ",").filter (· ≠ "")).map parseOp, nat! nout⟩, [])
   | _ => none
 
 structure Script where
   chain : Chain := []
+  /-- script id of every output the chain creates (several outputs may share one) -/
+  scripts : List (Outpoint × Nat) := []
   tip0 : Nat := 0
   tipAt : List (Nat × Nat) := []
   reqs : List (Req × Nat) := []
@@ -32,6 +38,20 @@ structure Script where
 def Script.tip (s : Script) (k : Nat) : Nat :=
   s.tipAt.foldl (fun t e => if e.1 ≤ k then e.2 else t) s.tip0
 
+/-- script id of an outpoint; the default (an outpoint the chain does not create) is the harness's formula -/
+def Script.scriptOf (s : Script) (op : Outpoint) : Nat :=
+  match s.scripts.find? (·.1 == op) with
+  | some e => e.2
+  | none => 100000 + op.txid * 100 + op.idx
+
+/-- The harness's filter: the block matches iff one of its transactions touches a script of the watch list (an
+input spends an output paying to it, or an output pays to it), or the call is a scripted false positive. -/
+def Script.touches (s : Script) (h : Nat) (watch : List Outpoint) : Bool :=
+  let ws := watch.map s.scriptOf
+  (blockAt s.chain h).any (fun tx =>
+    tx.ins.any (fun i => ws.contains (s.scriptOf i)) ||
+    (List.range tx.nout).any (fun o => ws.contains (s.scriptOf ⟨tx.id, o⟩)))
+
 def Script.world (s : Script) : World where
   chain := s.chain
   tip := s.tip
@@ -40,16 +60,14 @@ def Script.world (s : Script) : World where
   hashErr := fun k => s.hashErr.contains k
   fm := fun k h watch =>
     if s.fltrErr.contains k then none
-    else some (s.fp.contains k || watch.any (fun op => (spendIn (blockAt s.chain h) op).isSome))
+    else some (s.fp.contains k || s.touches h watch)
   blockErr := fun k => s.blkErr.contains k
 
-def opLe (a b : Outpoint) : Bool := a.txid < b.txid || (a.txid == b.txid && a.idx ≤ b.idx)
-
-def insertOp (x : Outpoint) : List Outpoint → List Outpoint
+def insertNat (x : Nat) : List Nat → List Nat
   | [] => [x]
-  | y :: ys => if opLe x y then x :: y :: ys else y :: insertOp x ys
+  | y :: ys => if x ≤ y then x :: y :: ys else y :: insertNat x ys
 
-def sortOps (l : List Outpoint) : List Outpoint := l.foldr insertOp []
+def sortNats (l : List Nat) : List Nat := l.foldr insertNat []
 
 def showRes (q : Req) : Res → String
   | .ok (.spent t i h) => s!"spent {t} {i} {h}"
@@ -60,10 +78,10 @@ def showRes (q : Req) : Res → String
   | .err .filterFail => "err filter"
   | .err .blockFail => "err block"
 
-def showEv : Ev → String
+def showEv (sc : Script) : Ev → String
   | .hash h ok => s!"cb hash {h} => {if ok then "ok" else "err"}"
   | .filter h watch r =>
-    let ws := " ".intercalate ((sortOps watch).map (fun o => s!"{o.txid}.{o.idx}"))
+    let ws := " ".intercalate ((sortNats (watch.map sc.scriptOf)).map toString)
     let rs := match r with | none => "err" | some true => "1" | some false => "0"
     s!"cb filter {h} [{ws}] => {rs}"
   | .block h ok => s!"cb block {h} => {if ok then "ok" else "err"}"
@@ -93,7 +111,10 @@ def runCase : CaseFn := fun c => Id.run do
   for (ln, line) in c.lines do
     let (op, obs) := splitObs line
     match words op with
-    | "blk" :: _ :: txs => s := { s with chain := s.chain ++ [txs.filterMap parseTx] }
+    | "blk" :: _ :: txs =>
+      let ps := txs.filterMap parseTx
+      let scr := ps.flatMap (fun p => (List.range p.2.length).map (fun o => ((⟨p.1.id, o⟩ : Outpoint), p.2.getD o 0)))
+      s := { s with chain := s.chain ++ [ps.map (·.1)], scripts := s.scripts ++ scr }
     | ["tipat", k, t] => s := { s with tipAt := s.tipAt ++ [(nat! k, nat! t)] }
     | ["req", id, tx, ix, b, k] => s := { s with reqs := s.reqs ++ [(⟨nat! id, ⟨nat! tx, nat! ix⟩, nat! b⟩, nat! k)] }
     | ["fp", k] => s := { s with fp := nat! k :: s.fp }
@@ -117,7 +138,7 @@ def runCase : CaseFn := fun c => Id.run do
   if status == .fuelOut then
     out := out.push s!"DIFF {pre} line 0: model ran out of fuel"
     diverged := true
-  let mlog := st.log.map showEv
+  let mlog := st.log.map (showEv s)
   if !diverged then
     let mut i := 0
     for (ln, line) in cbs do
